@@ -166,6 +166,145 @@ fn run_seq_with(
     )
 }
 
+fn ilv_coverage(st: &crate::ilv::IlvStats, opts: &crate::ilv::IlvOpts) -> Map<String, Value> {
+    let mut m = Map::new();
+    m.insert("engine".into(), json!("ILV: CHESS-style preemption-bounded DFS by re-execution over the real allocator; threads are coroutines, a scheduling point before every atomic operation"));
+    m.insert("scenarios".into(), json!(st.scenarios));
+    m.insert("executions".into(), json!(st.executions));
+    m.insert("states".into(), json!(st.sched_points.max(1)));
+    m.insert("transitions".into(), json!(st.steps.max(1)));
+    m.insert("traces_validated_against_impl".into(), json!(st.executions));
+    m.insert("scheduling_points".into(), json!(st.sched_points));
+    m.insert(
+        "preemption_bound".into(),
+        if opts.bound == usize::MAX { json!("unbounded") } else { json!(opts.bound) },
+    );
+    m.insert("state_cache".into(), json!(opts.cache));
+    m.insert("distinct_cache_states".into(), json!(st.cache_states));
+    m.insert("pruned_revisits".into(), json!(st.pruned));
+    m.insert("scenarios_capped".into(), json!(st.capped));
+    m.insert("exhaustive".into(), json!(st.capped == 0));
+    m.insert("distinct_final_outcomes_total".into(), json!(st.outcomes));
+    m.insert("scenarios_with_single_outcome".into(), json!(st.vacuous));
+    m.insert("max_uninterrupted_steps_of_a_call".into(), json!(st.max_solo_steps));
+    m.insert("executions_ending_in_panic".into(), json!(st.panicked_execs));
+    m.insert("determinism_checks".into(), json!(st.determinism_checks));
+    if st.crash_points > 0 {
+        m.insert("crash_points".into(), json!(st.crash_points));
+        m.insert("distinct_crash_images_recovered".into(), json!(st.crash_distinct));
+    }
+    if st.c10_probes > 0 {
+        m.insert("c10_probes".into(), json!(st.c10_probes));
+    }
+    let samples = if st.samples.is_empty() { vec![json!("none")] } else { st.samples.clone() };
+    m.insert("samples".into(), json!(samples));
+    let mut ps = st.per_scenario.clone();
+    ps.truncate(1500);
+    m.insert("per_scenario".into(), json!(ps));
+    m
+}
+
+fn run_ilv(
+    prop: &str,
+    tier: &str,
+    scs: Vec<crate::ilv::Scenario>,
+    opts: crate::ilv::IlvOpts,
+    out: Option<&Path>,
+) -> i32 {
+    let t0 = Instant::now();
+    let (st, col) = crate::ilv::explore_all(&scs, &opts);
+    eprintln!(
+        "[{prop}] scenarios={} executions={} steps={} capped={} vacuous={} panicked={} pruned={} secs={:.1}",
+        st.scenarios, st.executions, st.steps, st.capped, st.vacuous, st.panicked_execs, st.pruned,
+        t0.elapsed().as_secs_f64()
+    );
+    let coverage = ilv_coverage(&st, &opts);
+    finish(
+        Outcome {
+            prop: prop.to_string(),
+            tier: tier.to_string(),
+            level: "model_checking",
+            coverage,
+            assumptions: vec![
+                SC_ASSUMPTION.to_string(),
+                HOOK_ASSUMPTION.to_string(),
+                "bounded: 2-3 threads, 1-2 calls each, the generated scenario families of /verif/harness/src/scenarios.rs, preemption bound as stated".to_string(),
+            ],
+            collector: col,
+            wall_s: t0.elapsed().as_secs_f64(),
+        },
+        out,
+    )
+}
+
+/// Run a SEQ part and an ILV part for one property and merge the evidence
+#[allow(clippy::too_many_arguments)]
+fn run_seq_ilv(
+    prop: &str,
+    tier: &str,
+    cfgs: Vec<Config>,
+    params: SeqParams,
+    scs: Vec<crate::ilv::Scenario>,
+    opts: crate::ilv::IlvOpts,
+    mut assumptions: Vec<String>,
+    out: Option<&Path>,
+) -> i32 {
+    let t0 = Instant::now();
+    let (sst, mut col) = explore_all(&cfgs, &params);
+    let t1 = t0.elapsed().as_secs_f64();
+    let (ist, icol) = crate::ilv::explore_all(&scs, &opts);
+    col.merge(icol);
+    eprintln!(
+        "[{prop}] SEQ configs={} states={} transitions={} depth={} capped={} ({t1:.1}s) | ILV scenarios={} executions={} steps={} capped={} panicked={} ({:.1}s)",
+        sst.configs, sst.states, sst.transitions, sst.depth_completed, sst.capped,
+        ist.scenarios, ist.executions, ist.steps, ist.capped, ist.panicked_execs,
+        t0.elapsed().as_secs_f64() - t1
+    );
+    let seqc = seq_coverage(&sst, &params, json!({}));
+    let ilvc = ilv_coverage(&ist, &opts);
+    let mut m = Map::new();
+    m.insert("states".into(), json!(sst.states + ist.sched_points));
+    m.insert("transitions".into(), json!(sst.transitions + ist.steps));
+    m.insert(
+        "traces_validated_against_impl".into(),
+        json!(sst.transitions + ist.executions),
+    );
+    m.insert("exhaustive".into(), json!(sst.capped == 0 && ist.capped == 0));
+    let mut samples = sst.samples.clone();
+    samples.extend(ist.samples.iter().take(3).cloned());
+    if samples.is_empty() {
+        samples.push(json!("none"));
+    }
+    m.insert("samples".into(), json!(samples));
+    m.insert("sequential_part".into(), Value::Object(seqc));
+    m.insert("concurrent_part".into(), Value::Object(ilvc));
+    assumptions.push(SC_ASSUMPTION.to_string());
+    assumptions.push(HOOK_ASSUMPTION.to_string());
+    finish(
+        Outcome {
+            prop: prop.to_string(),
+            tier: tier.to_string(),
+            level: "model_checking",
+            coverage: m,
+            assumptions,
+            collector: col,
+            wall_s: t0.elapsed().as_secs_f64(),
+        },
+        out,
+    )
+}
+
+fn ilv_opts(thorough: bool) -> crate::ilv::IlvOpts {
+    crate::ilv::IlvOpts {
+        bound: if thorough { 3 } else { 2 },
+        crash: false,
+        c10: false,
+        cache: thorough,
+        max_secs: if thorough { 300.0 } else { 20.0 },
+        max_execs: if thorough { 5_000_000 } else { 200_000 },
+    }
+}
+
 fn small_geometry() -> bool {
     TREE_FRAMES <= 1024
 }
@@ -201,7 +340,17 @@ pub fn run(prop: &str, tier: &str, out: Option<&Path>) -> i32 {
                 },
                 max_secs: if thorough { 900.0 } else { 40.0 },
             };
-            run_seq(prop, tier, cfgs, params, seq_assume, out)
+            if prop == "C02" || prop == "C14" {
+                run_seq(prop, tier, cfgs, params, seq_assume, out)
+            } else {
+                // C04, C13: also at the end of / inside every explored interleaving
+                let scs = crate::scenarios::generate(thorough as usize);
+                run_seq_ilv(prop, tier, cfgs, params, scs, ilv_opts(thorough), seq_assume, out)
+            }
+        }
+        "C01" | "C03" | "C21" => {
+            let scs = crate::scenarios::generate(thorough as usize);
+            run_ilv(prop, tier, scs, ilv_opts(thorough), out)
         }
         "C09" => {
             let mut cl = classings_std();
@@ -266,6 +415,7 @@ pub fn replay(path: &str) -> i32 {
     let run = || -> Result<Vec<String>, String> {
         match engine {
             "seq" => crate::seq::replay(&v),
+            "ilv" => crate::ilv::replay(&v),
             e => Err(format!("unknown engine {e}")),
         }
     };
